@@ -12,6 +12,7 @@ import os
 
 import signersched
 import vlib
+from checks import sys as system_loop
 from checks.common import Check
 
 PROP = "C20"
@@ -243,10 +244,15 @@ def run(tier, seed):
     c.cov["distinct_nontrivial"] = len(distinct)
     c.cov["rule"] = ("one observation per external stimulus of the real signer; distinct = distinct (action, state label, "
                      "state epoch - chain epoch, #initializers, #registrations held, #beacons marked, #signatures received)")
+    # the same signer runtime against the REAL aggregator (composed model, spec/system)
+    system_loop.stage(c, tier, seed)
     return c.finish()
 
 
 def replay(path, seed):
     c = Check(PROP, "quick", seed, "model_checking", replay=True)
-    c.validate("signer", "SignerTrace", "SignerTrace.cfg", os.path.abspath(path), timeout=3000, heap="8g")
+    if system_loop.is_sys_trace(path):
+        system_loop.replay_stage(c, path)
+    else:
+        c.validate("signer", "SignerTrace", "SignerTrace.cfg", os.path.abspath(path), timeout=3000, heap="8g")
     return c.finish()
